@@ -49,7 +49,10 @@ impl<T> Sender<T> {
         self.tx.push(value).map_err(|_| ChannelFull)
     }
 
-    pub fn force_send(&mut self, value: T) {
+    /// Never drops `value`: if the channel is full the value is parked on the sending side and
+    /// goes into the channel with a later call. Returns whether `value` is in the channel, i.e.
+    /// visible to the receiver, when the call returns.
+    pub fn force_send(&mut self, value: T) -> bool {
         while let Some(pending) = self.pending_messages.pop_front() {
             #[cfg(fastrace_verif)]
             crate::verif::hook(crate::verif::Point::SenderBeforePush);
@@ -60,7 +63,7 @@ impl<T> Sender<T> {
                 self.pending_messages.push_back(value);
                 #[cfg(fastrace_verif)]
                 crate::verif::hook(crate::verif::Point::SenderParked);
-                return;
+                return false;
             }
         }
 
@@ -70,7 +73,9 @@ impl<T> Sender<T> {
             self.pending_messages.push_back(value);
             #[cfg(fastrace_verif)]
             crate::verif::hook(crate::verif::Point::SenderParked);
+            return false;
         }
+        true
     }
 }
 
